@@ -12,8 +12,10 @@ import (
 	"os"
 	"runtime"
 	"runtime/debug"
+	"runtime/pprof"
 	"sort"
 	"strings"
+	"time"
 
 	"verif/pkg/prng"
 	"verif/pkg/proto"
@@ -141,6 +143,7 @@ type (
 	Batch        = proto.Batch
 	MapOrder     = proto.MapOrder
 	Dirty        = proto.Dirty
+	Giant        = proto.Giant
 	Scenario     = proto.Scenario
 	Violation    = proto.Violation
 	ReplayProg   = proto.ReplayProg
@@ -257,6 +260,12 @@ func Main() {
 	if fn == nil {
 		fatal(fmt.Errorf("property %s has no simulation", batch.Property))
 	}
+	if pf := os.Getenv("VERIF_CPUPROFILE"); pf != "" {
+		if f, err := os.Create(pf); err == nil {
+			pprof.StartCPUProfile(f)
+			defer pprof.StopCPUProfile()
+		}
+	}
 	enc := json.NewEncoder(os.Stdout)
 	var cur *os.File
 	if *curFile != "" {
@@ -269,7 +278,17 @@ func Main() {
 			cur.WriteAt([]byte(fmt.Sprintf("%-12d", i)), 0)
 		}
 		c := &Ctx{N: n, Run: i, R: prng.Derive(batch.Seed, batch.Property, uint64(i))}
+		t0 := time.Now()
 		rp := fn(c)
+		if tf := os.Getenv("VERIF_TIMING"); tf != "" {
+			// development aid: wall time of slow runs, appended to a side file (never read back)
+			if d := time.Since(t0); d > 300*time.Millisecond {
+				if f, err := os.OpenFile(tf, os.O_APPEND|os.O_CREATE|os.O_WRONLY, 0o644); err == nil {
+					fmt.Fprintf(f, "%s run=%d ms=%d evals=%d\n", batch.Property, i, d.Milliseconds(), n.Counters["evaluations"])
+					f.Close()
+				}
+			}
+		}
 		n.Counters["runs"]++
 		fmt.Fprintf(total, "%d:%x;", i, c.hash)
 		if *runlog {
